@@ -1248,6 +1248,8 @@ func (z *Decimal) SetMantExp(mant *Decimal, exp int) *Decimal {
 	}
 	z.Copy(mant)
 	if z.form != finite {
+		// ±0 and ±Inf are unaffected by the exponent: the result is exact
+		z.acc = Exact
 		return z
 	}
 	z.setExpAndRound(int64(z.exp)+int64(exp), 0)
